@@ -227,9 +227,14 @@ def r14_5(ctx):
             ctx.bad("R14.5", m.module, m.qual, f"_match_{op}", f"_match_{op} no longer returns a single comparison", m.node.lineno)
             continue
         cmp_ = rets[0].value
+        arg = "self.args['date']" if "date" in val else "self.args['n']"
+        if norm(cmp_.left) == arg and len(cmp_.ops) == 1:
+            # written the other way round (`argument > value`): read it as `value < argument`
+            mir = {ast.Lt: ast.Gt, ast.Gt: ast.Lt, ast.LtE: ast.GtE, ast.GtE: ast.LtE, ast.Eq: ast.Eq, ast.NotEq: ast.NotEq}
+            if type(cmp_.ops[0]) in mir:
+                cmp_ = ast.Compare(left=cmp_.comparators[0], ops=[mir[type(cmp_.ops[0])]()], comparators=[cmp_.left])
         got = type(cmp_.ops[0]).__name__
         left, right = norm(cmp_.left), norm(cmp_.comparators[0])
-        arg = "self.args['date']" if "date" in val else "self.args['n']"
         # value provenance
         from .common import pm_of
         pmm = pm_of(p, m)
